@@ -208,12 +208,21 @@ def unordField : FieldSem where
     | _ => .error "payload does not belong to this field"
   setter old v := some ((UArr.hashcmp Gen.fewMax (asList old) (asList v)).map .uarr)
 
+/-- collecting `(k, v)` pairs back into a map container: one entry per key.  (`apply_unordered_hashdiffs` yields every
+pair `count` times; on a base that is not the one the diff was computed from a count can exceed 1; the copies are
+identical, so keeping the first is what `FromIterator` for `HashMap` / `BTreeMap` gives) -/
+def dedupKeysAux (seen : List Nat) : List (Nat × Nat) → List (Nat × Nat)
+  | [] => []
+  | (k, v) :: t => if seen.contains k then dedupKeysAux seen t else (k, v) :: dedupKeysAux (k :: seen) t
+
+def dedupKeys (l : List (Nat × Nat)) : List (Nat × Nat) := dedupKeysAux [] l
+
 /-- unordered_map_like (flat), `keyOnly` = `map_equality = "key_only"` -/
 def mapField (keyOnly : Bool) : FieldSem where
   diff a b := (UMap.hashcmp (asPairs a) (asPairs b) keyOnly).map .umap
   diffRef a b := (UMap.hashcmp (asPairs a) (asPairs b) keyOnly).map .umap
   apply x p := match p with
-    | .umap d => .ok (.pairs (UMap.apply (asPairs x) d))
+    | .umap d => .ok (.pairs (dedupKeys (UMap.apply (asPairs x) d)))
     | _ => .error "payload does not belong to this field"
   setter old v := some ((UMap.hashcmp (asPairs old) (asPairs v) keyOnly).map .umap)
 
